@@ -1,12 +1,14 @@
 (* C31 — Comments, spacing and line directives do not change a cdef's meaning.
-   Statements only; proofs are in C31/Proofs.v and C31/Proofs2.v.  The model (C31/Model.v) is
-   cparser.py's textual pre-processing; it is tied to the code by differential tests on every run.
+   Statements only; proofs are in C31/Proofs.v, Proofs2.v, Proofs3.v, Proofs4.v.  The model (C31/Model.v, C31/Order.v) is
+   cparser.py's textual pre-processing and the front part of Parser._parse; it is tied to the code by differential tests
+   on every run and by C31/Gen.v (regenerated from cparser.py on every run: regex sources, statement order).
    What is NOT covered by these theorems (tested only, tools/props/c31.py): pycparser's lexer and
    parser, the '...' / extern "Python" / __stdcall rewriting, and the composition of the steps
    (for which the full statement is false, see C31_full_statement_refuted). *)
 From Coq Require Import List NArith Bool.
 Import ListNotations.
-From Cffi Require Import C31.Model C31.Proofs C31.Proofs2 C31.Proofs3.
+From Cffi Require Import C31.Model C31.Proofs C31.Proofs2 C31.Proofs3 C31.Order C31.Proofs4.
+From Cffi Require C31.Gen.
 Open Scope N_scope.
 
 (* TIES of the hand-modelled regular expressions to Python's `re` (differential runs of tools/props/c31.py on
@@ -203,3 +205,103 @@ Example C31_example_define :
   remove_line_directives [35;32;53;10;105;10;35;108;105;110;101;32;55] =
     ([35;108;105;110;101;64;48;10;105;10;35;108;105;110;101;64;49], [[35;32;53]; [35;108;105;110;101;32;55]]).
 Proof. split; reflexivity. Qed.
+
+(* ================================================================== round 3 *)
+
+(* ---- regenerated ties (C31/Gen.v is rewritten from /repo's cparser.py by tools/props/c31_regen.py on every run) ---- *)
+
+(* [regen] the pattern text and flags of the five hand-modelled regular expressions, and the statements of
+   _remove_line_directives ('#line@%d'), _put_back_line_directives ('#line@', s[6:], except (ValueError, IndexError))
+   and _common_type_names are the ones the model was written for.  A finite comparison of regenerated constants. *)
+Example C31_sources_pinned :
+  Gen.r_comment_src = exp_r_comment_src /\ Gen.r_define_src = exp_r_define_src /\
+  Gen.r_line_directive_src = exp_r_line_directive_src /\ Gen.r_words_src = exp_r_words_src /\
+  Gen.r_other_whitespace_src = exp_r_other_whitespace_src /\
+  [Gen.r_comment_flags; Gen.r_define_flags; Gen.r_line_directive_flags; Gen.r_words_flags; Gen.r_other_whitespace_flags]
+    = exp_flags /\
+  Gen.remove_line_directives_stmts = exp_remove_line_directives /\
+  Gen.put_back_line_directives_stmts = exp_put_back_line_directives /\
+  Gen.common_type_names_stmts = exp_common_type_names.
+Proof. exact sources_pinned. Qed.
+
+(* [regen] executing the REGENERATED list of the top-level statements of cparser._preprocess, each mapped to the model
+   function it stands for (C31/Order.v: stage_of, run_pre; the '...'/__stdcall/extern "Python" steps are the identity
+   on the model's domain), is Model.preprocess -- for every text.  Reordering, removing, adding or editing a statement
+   of _preprocess makes this fail. *)
+Theorem C31_preprocess_order_tie : forall s, run_preprocess Gen.preprocess_stmts s = Some (preprocess s).
+Proof. exact preprocess_order_tie. Qed.
+Print Assumptions C31_preprocess_order_tie.
+
+(* [regen] the front part of Parser._parse (regenerated statement list): _preprocess is called first, and
+   _common_type_names scans the preprocessed text; the names pre-declared to pycparser are `declared` followed by the
+   common type names found in the PREPROCESSED text that are not in `declared` (all texts, all sets of names) *)
+Theorem C31_parse_front_tie : forall common declared raw,
+  run_parse_front common declared Gen.parse_front_stmts raw = Some (parse_front common declared raw).
+Proof. exact parse_front_tie. Qed.
+Print Assumptions C31_parse_front_tie.
+
+(* ---- the composed _preprocess on '#'-free texts, comments allowed ---- *)
+
+(* no '#': nothing is stashed, no #define is found, nothing is raised; the result is the normalised text with every
+   comment replaced by a blank and its newlines, and there are no macros.  (Generalises C31_preprocess_plain.) *)
+(* [tie-preprocess] [tie-comment] *)
+Theorem C31_preprocess_hashfree_norm : forall s, nohash s -> preprocess s = Ok (sc (normalize_ws s), []).
+Proof. exact preprocess_hashfree_norm. Qed.
+Print Assumptions C31_preprocess_hashfree_norm.
+
+(* [tie-preprocess] [tie-comment] *)
+Theorem C31_preprocess_hashfree : forall s, nohash s -> no_other_ws s -> preprocess s = Ok (sc s, []).
+Proof. exact preprocess_hashfree. Qed.
+Print Assumptions C31_preprocess_hashfree.
+
+(* the first composed statement in which comments occur: for a cdef without '#' (no directives, no #define) and
+   without \r \f \v, any sequence of comments and white space inserted at a cut outside comments that does not split
+   a word leaves the words of the text handed on unchanged, produces no macro and raises nothing *)
+(* [tie-preprocess] [tie-comment] [tie-words] *)
+Theorem C31_insertion_preprocess_hashfree : forall s1 f s2,
+  nohash (s1 ++ f ++ s2) -> no_other_ws (s1 ++ f ++ s2) ->
+  closed s1 -> filler f -> word_boundary (sc s1) (sc s2) ->
+  exists t1 t2, preprocess (s1 ++ f ++ s2) = Ok (t1, []) /\ preprocess (s1 ++ s2) = Ok (t2, []) /\
+                words t1 = words t2.
+Proof. exact insertion_preprocess_hashfree. Qed.
+Print Assumptions C31_insertion_preprocess_hashfree.
+
+(* ---- the common type names (which names get `typedef int NAME;` in front of the text given to pycparser) ---- *)
+
+(* [tie-ctn] "C31.Order.common_type_names vs cparser._common_type_names" *)
+Theorem C31_ctn_words_only : forall common t1 t2, words t1 = words t2 ->
+  common_type_names common t1 = common_type_names common t2.
+Proof. exact ctn_words_only. Qed.
+Print Assumptions C31_ctn_words_only.
+
+(* comments cannot change which type names are pre-declared -- whatever their text ("typedef unsigned char uint8_t;"
+   included), for every set of common types and every set of earlier typedefs; stated on the model's parse_front and on
+   the regenerated statement order of Parser._parse *)
+(* [tie-ctn] [tie-preprocess] [regen] *)
+Theorem C31_typenames_comment_invariant : forall common declared s1 f s2,
+  nohash (s1 ++ f ++ s2) -> no_other_ws (s1 ++ f ++ s2) ->
+  closed s1 -> filler f -> word_boundary (sc s1) (sc s2) ->
+  exists tn t1 t2,
+    parse_front common declared (s1 ++ f ++ s2) = Ok (tn, t1, []) /\
+    parse_front common declared (s1 ++ s2) = Ok (tn, t2, []) /\ words t1 = words t2.
+Proof. exact typenames_comment_invariant. Qed.
+Print Assumptions C31_typenames_comment_invariant.
+
+Theorem C31_parse_front_comment_invariant : forall common declared s1 f s2,
+  nohash (s1 ++ f ++ s2) -> no_other_ws (s1 ++ f ++ s2) ->
+  closed s1 -> filler f -> word_boundary (sc s1) (sc s2) ->
+  exists tn t1 t2,
+    run_parse_front common declared Gen.parse_front_stmts (s1 ++ f ++ s2) = Some (Ok (tn, t1, [])) /\
+    run_parse_front common declared Gen.parse_front_stmts (s1 ++ s2) = Some (Ok (tn, t2, [])) /\ words t1 = words t2.
+Proof. exact parse_front_comment_invariant. Qed.
+Print Assumptions C31_parse_front_comment_invariant.
+
+(* non-vacuity, and why the ORDER is part of the tie: the scanner applied to the raw text is not invariant.
+   "uint8_t x;" pre-declares uint8_t; with "// typedef int uint8_t;\n" in front the raw scan finds nothing, while
+   parse_front (scan after comment removal) still pre-declares uint8_t *)
+Example C31_ctn_raw_not_invariant :
+  filler ex_comment /\
+  common_type_names ex_common ex_decl = [[117;105;110;116;56;95;116]] /\
+  common_type_names ex_common (ex_comment ++ ex_decl) = [] /\
+  parse_front ex_common [] (ex_comment ++ ex_decl) = Ok ([[117;105;110;116;56;95;116]], SP :: NL :: ex_decl, []).
+Proof. exact ctn_raw_not_invariant. Qed.
